@@ -22,6 +22,7 @@ type Tape struct {
 	Overrun int
 }
 
+//go:norace
 func splitmix(x *uint64) uint64 {
 	*x += 0x9e3779b97f4a7c15
 	z := *x
@@ -50,6 +51,8 @@ func New(seed uint64) *Tape { return &Tape{state: seed} }
 func Replay(rec []uint32) *Tape { return &Tape{replay: rec, replays: true} }
 
 // Record returns the draws made so far (bounded values).
+//
+//go:norace
 func (t *Tape) Record() []uint32 {
 	if t.replays {
 		// draws past the end of a replayed tape are zeros; trailing zeros carry
@@ -64,9 +67,13 @@ func (t *Tape) Record() []uint32 {
 }
 
 // Len is the number of draws made so far.
+//
+//go:norace
 func (t *Tape) Len() int { return len(t.rec) }
 
 // Intn draws an integer in [0, n).  n <= 0 yields 0 without consuming a draw.
+//
+//go:norace
 func (t *Tape) Intn(n int) int {
 	if n <= 1 {
 		return 0
@@ -83,11 +90,24 @@ func (t *Tape) Intn(n int) int {
 	} else {
 		v = uint32(splitmix(&t.state)>>11) % uint32(n)
 	}
-	t.rec = append(t.rec, v)
+	// manual growth: append()/copy() are instrumented by the runtime itself even
+	// inside //go:norace functions, and the scheduler draws from this tape on
+	// behalf of different simulated goroutines.
+	if len(t.rec) == cap(t.rec) {
+		grown := make([]uint32, len(t.rec), 2*cap(t.rec)+64)
+		for i := range t.rec {
+			grown[i] = t.rec[i]
+		}
+		t.rec = grown
+	}
+	t.rec = t.rec[:len(t.rec)+1]
+	t.rec[len(t.rec)-1] = v
 	return int(v)
 }
 
 // Range draws an integer in [lo, hi] (inclusive).
+//
+//go:norace
 func (t *Tape) Range(lo, hi int) int {
 	if hi <= lo {
 		return lo
@@ -96,15 +116,21 @@ func (t *Tape) Range(lo, hi int) int {
 }
 
 // Bool draws a fair coin; zero (the shrunk value) is false.
+//
+//go:norace
 func (t *Tape) Bool() bool { return t.Intn(2) == 1 }
 
 // Chance is true with probability about num/den; zero (shrunk) is false.
+//
+//go:norace
 func (t *Tape) Chance(num, den int) bool {
 	return t.Intn(den) >= den-num
 }
 
 // Pick draws an index into a list of n weights and returns it; index 0 is the
 // shrunk choice, so put the simplest alternative first.
+//
+//go:norace
 func (t *Tape) Pick(weights ...int) int {
 	sum := 0
 	for _, w := range weights {
@@ -121,6 +147,8 @@ func (t *Tape) Pick(weights ...int) int {
 }
 
 // Uint64 draws 64 bits (three draws).
+//
+//go:norace
 func (t *Tape) Uint64() uint64 {
 	a := uint64(t.Intn(1 << 22))
 	b := uint64(t.Intn(1 << 21))
@@ -130,4 +158,6 @@ func (t *Tape) Uint64() uint64 {
 
 // Sub returns the seed for an independent PRNG (used by the scheduler, which
 // must not call into this package from //go:norace code).
+//
+//go:norace
 func (t *Tape) Sub() uint64 { return t.Uint64() | 1 }
